@@ -402,6 +402,59 @@ func Run(r *fw.Run) {
 
 	// closed world
 	closedWorld(r)
+	sentinelWorld(r)
+}
+
+// sentinelWorld is a second closed world built around the zero hash: base hashes {zero, a, b}, every
+// proof of length <= 3 over them, and as claimed root / leaf / old root every hash computable from the
+// base with at most three NodeHash applications. A verifier that uses a particular hash value as an
+// internal marker (or forgets an error while hashing on) accepts some tuple in here that the RFC rejects.
+func sentinelWorld(r *fw.Run) {
+	var zero tlog.Hash
+	a, b := tlog.RecordHash([]byte("a")), tlog.RecordHash([]byte("b"))
+	base := []tlog.Hash{zero, a, b}
+	seen := map[tlog.Hash]bool{}
+	var vals []tlog.Hash
+	add := func(h tlog.Hash) {
+		if !seen[h] {
+			seen[h] = true
+			vals = append(vals, h)
+		}
+	}
+	for _, x := range base {
+		add(x)
+	}
+	for depth := 0; depth < 3; depth++ {
+		cur := append([]tlog.Hash(nil), vals...)
+		for _, x := range cur {
+			for _, y := range base {
+				add(tlog.NodeHash(x, y))
+				add(tlog.NodeHash(y, x))
+			}
+		}
+	}
+	r.Bounds["sentinel_world"] = fmt.Sprintf("base {zero, a, b}; proofs of length <= 3; %d derived hashes as root; t <= 5", len(vals))
+	var proofs [][]int
+	enum.Sequences(len(base), 3, func(s []int) { proofs = append(proofs, append([]int(nil), s...)) })
+	fw.Parallel(len(proofs), func(i int) {
+		c := &ctx{r, fw.NewLocal(), 0, 5}
+		var p []tlog.Hash
+		for _, x := range proofs[i] {
+			p = append(p, base[x])
+		}
+		c.l.States++
+		for t := int64(1); t <= 5; t++ {
+			for n := int64(0); n < t; n++ {
+				for _, th := range vals {
+					for _, h := range base {
+						c.try("record", p, t, th, n, h, "sentinel-world", false)
+						c.try("tree", p, t, th, n+1, h, "sentinel-world", false)
+					}
+				}
+			}
+		}
+		r.Merge(c.l)
+	})
 }
 
 func closedWorld(r *fw.Run) {
